@@ -8,18 +8,19 @@ From Otto Require Import C03.Spec C03.Model C03.Proofs C03.ProofsLayout C03.Lit 
 Import ListNotations.
 Open Scope nat_scope.
 
-(* core: for every well-formed expression tree, with any amount of redundant
-   parentheses anywhere, the parser model applied to the rendering returns
-   exactly the tree the grammar assigns — all binary/unary/postfix/assignment/
-   conditional/comma operators, member/call/new chains, argument lists *)
-Theorem C03_expr_roundtrip : forall e, wf e = true -> norel e = true ->
+(* core: for EVERY well-formed expression tree, with any amount of redundant
+   parentheses anywhere, the parser model applied to the rendering returns exactly
+   the tree the grammar assigns — all binary (relational ones included, left-
+   associative since /repo e62d085), unary, postfix, assignment, conditional and comma
+   operators, member/call/new chains, argument lists *)
+Theorem C03_expr_roundtrip : forall e, wf e = true ->
   exists f0, forall f, f0 <= f -> parse_expr f (print 0 e) = Some (strip e).
 Proof. exact expr_roundtrip. Qed.
 Print Assumptions C03_expr_roundtrip.
 
 (* the same at every level of the ladder, under every parenthesisation level the
    printer may be asked for, in every context that does not continue the expression *)
-Theorem C03_expr_roundtrip_in_context : forall e q p rest, wf e = true -> norel e = true ->
+Theorem C03_expr_roundtrip_in_context : forall e q p rest, wf e = true ->
   q <= p -> p <= 17 -> stops q rest = true ->
   exists f0, forall f, f0 <= f -> parse f q false (print p e ++ rest) = Some (strip e, rest).
 Proof. exact expr_roundtrip_ctx. Qed.
@@ -27,7 +28,7 @@ Print Assumptions C03_expr_roundtrip_in_context.
 
 (* the tree is insensitive to redundant parentheses *)
 Theorem C03_paren_insensitive : forall e1 e2,
-  wf e1 = true -> norel e1 = true -> wf e2 = true -> norel e2 = true -> strip e1 = strip e2 ->
+  wf e1 = true -> wf e2 = true -> strip e1 = strip e2 ->
   exists f0, forall f, f0 <= f -> parse_expr f (print 0 e1) = parse_expr f (print 0 e2).
 Proof. exact paren_insensitive. Qed.
 Print Assumptions C03_paren_insensitive.
@@ -36,7 +37,7 @@ Print Assumptions C03_paren_insensitive.
    carries the tokens of the rendering, with a line terminator in front of any
    token except in front of a postfix ++ / -- (R keeps the flags of ++ and --
    tokens, which Spec.print sets to "none"), parses to the tree of the grammar *)
-Theorem C03_layout_roundtrip : forall e ts, wf e = true -> norel e = true -> R (print 0 e) ts ->
+Theorem C03_layout_roundtrip : forall e ts, wf e = true -> R (print 0 e) ts ->
   exists f0, forall f, f0 <= f -> parse_expr f ts = Some (strip e).
 Proof. exact layout_roundtrip. Qed.
 Print Assumptions C03_layout_roundtrip.
@@ -50,12 +51,6 @@ Theorem C03_layout_insensitive : forall f k noin ts ts', R ts ts' ->
   end.
 Proof. exact layout_insensitive. Qed.
 Print Assumptions C03_layout_insensitive.
-
-(* otto's defect: relational operators associate to the right (a<b<c is a<(b<c)) *)
-Theorem C03_relational_assoc_refuted :
-  exists e f e', wf e = true /\ parse_expr f (print 0 e) = Some e' /\ e' <> strip e.
-Proof. exact relational_chain_refuted. Qed.
-Print Assumptions C03_relational_assoc_refuted.
 
 (* literal tokens carry the value ES5 defines.  Numbers: every NumericLiteral
    (7.8.3, B.1.1) whose hex / legacy-octal value is below 2^63, and every decimal
@@ -103,14 +98,14 @@ Example C03_roundtrip_hyp_met :
              (ECond (EBin Lt a (EParen (EBin Comma b c)))
                     (ECall (EDot (ENew (EDot a 1%Z) [b; c]) 7%Z) [EBin In a b; EUn UTypeof (EPost true (EIdx a b))])
                     (EBin Sub (EBin Sub a (EParen (EBin Sub b c))) (EBin Mul (EUn UMinus a) (EUn UInc (EParen b))))) in
-  wf e = true /\ norel e = true /\ parse_expr 200 (print 0 e) = Some (strip e).
+  wf e = true /\ parse_expr 200 (print 0 e) = Some (strip e).
 Proof. vm_compute. auto. Qed.
 
 (* a layout with line terminators that meets R, and literals that meet the hypotheses *)
 Example C03_layout_hyp_met :
   let e := EBin Add (EPost true (EAtom (AId 1%Z))) (EUn UInc (EAtom (AId 2%Z))) in
   let ts := [(true, TAtom (AId 1%Z)); (false, TInc); (true, TOp Add); (false, TInc); (true, TAtom (AId 2%Z))] in
-  wf e = true /\ norel e = true /\ parse_expr 100 ts = Some (strip e).
+  wf e = true /\ parse_expr 100 ts = Some (strip e).
 Proof. vm_compute. auto. Qed.
 Example C03_number_hyp_met :   (* 0x7fffffffffffffff, 0.1 *)
   num_in_range [48;120;55;102;102;102;102;102;102;102;102;102;102;102;102;102;102;102]%Z = true /\
@@ -149,3 +144,11 @@ Example C03_noin_relational_model :
   parse 100 1 true [(false, a); (false, TOp Lt); (false, TLP); (false, b); (false, TOp In); (false, c); (false, TRP)]
     = Some (EBin Lt (EAtom (AId 1%Z)) (EBin In (EAtom (AId 2%Z)) (EAtom (AId 3%Z))), []).
 Proof. vm_compute. auto. Qed.
+
+(* relational chains (the region of the repaired finding C03-relational-assoc): a < b < c is
+   (a < b) < c; a < (b instanceof c) keeps its parentheses *)
+Example C03_relational_chain_left :
+  parse_expr 60 (print 0 rel_witness) = Some rel_witness /\
+  parse_expr 60 (print 0 (EBin Lt (EAtom (AId 1%Z)) (EBin InstOf (EAtom (AId 2%Z)) (EAtom (AId 3%Z)))))
+    = Some (EBin Lt (EAtom (AId 1%Z)) (EBin InstOf (EAtom (AId 2%Z)) (EAtom (AId 3%Z)))).
+Proof. exact relational_chain_left. Qed.
